@@ -8,6 +8,7 @@ with the specification bus's response, and at the end compares the outcome
 with the model's and evaluates the property's post-condition on the
 specification bus (filter / scheme stored, value returned, mapping recorded,
 quiescent mode off)."""
+from common import exc_name  # noqa: E402
 import itertools
 from common import InfraError, hot_addr
 from props._devmem_lockstep import LockStep, judge
@@ -323,7 +324,7 @@ def _correspond(ctx, corr, rng, T, ls):
             try:
                 impl.append("ok %d" % (1 if check_bad_rsp(r) else 0))
             except Exception as e:  # noqa
-                impl.append("err " + type(e).__name__)
+                impl.append("err " + exc_name(e))
             lines.append("check_bad %s %s" % (kn, o))
     for l, a in zip(lines, impl):
         m = ls.ask(l)
@@ -388,7 +389,7 @@ def _correspond(ctx, corr, rng, T, ls):
         try:
             lw = E.dali_width()
         except Exception as e:  # noqa
-            lw = "raises " + type(e).__name__
+            lw = "raises " + exc_name(e)
         if lw != w:
             corr.violate("filter:width", {"enum": en, "members": len(list(E))}, w, lw,
                          "the filter enum's width is not the width its members need")
